@@ -124,6 +124,74 @@ fn run(args: &[String]) -> i32 {
     0
 }
 
+/// infer-run --cases f --out f   (first line: {"args":[texts]}; then {id, body, two})
+/// session A: unannotated definition; session B: the definition as the checker printed it (inferred
+/// signature as annotations); the same calls in both.
+fn run_infer(args: &[String]) -> i32 {
+    let cases = read_ndjson(arg(args, "--cases").expect("--cases"));
+    let threads = arg_u64(args, "--threads", 16) as usize;
+    let maxargs = arg_u64(args, "--maxargs", 8) as usize;
+    let mut base = new_context(&[], true);
+    let r = run_input(&mut base, "use prelude");
+    if r.outcome != "ok" { eprintln!("prelude: {}", r.message); return 2; }
+    for s in cases[0]["setup"].as_array().map(|a| a.to_vec()).unwrap_or_default() {
+        let r = run_input(&mut base, s.as_str().unwrap());
+        if r.outcome != "ok" { eprintln!("setup statement {s} failed: {}", r.message); return 2; }
+    }
+    let argtexts: Vec<String> = cases[0]["args"].as_array().unwrap().iter().map(|a| a.as_str().unwrap().to_string()).collect();
+    let dims: DimMap = numbat::verif::unit_table(&base).into_iter().map(|e| (e.name.clone(), e.dimension.clone())).collect();
+    let results: Vec<J> = par_map(&cases[1..], threads, |c| {
+        let body = c["body"].as_str().unwrap();
+        let two = c["two"].as_bool().unwrap();
+        let def = if two { format!("fn f_u(x, y) = {body}") } else { format!("fn f_u(x) = {body}") };
+        let mut a = base.clone();
+        let ra = run_input(&mut a, &def);
+        let mut out = json!({"id": c["id"], "def": def, "a_outcome": ra.outcome, "a_kind": ra.kind, "a_msg": ra.message, "echo": ra.echo});
+        if ra.outcome != "ok" { return out; }
+        let echo = ra.echo.join("\n");
+        let mut b = base.clone();
+        let mut rb = run_input(&mut b, &echo);
+        out["b_outcome"] = json!(rb.outcome);
+        out["b_msg"] = json!(rb.message);
+        if rb.outcome != "ok" && echo.contains(" or ") {
+            // the printed type lists alternative names of the same dimension ("Activity or Frequency"):
+            // not valid syntax (reported); continue with the first alternative so that the calls are still compared
+            let mut fixed = String::new();
+            let mut rest = echo.as_str();
+            while let Some(pos) = rest.find(" or ") {
+                fixed.push_str(&rest[..pos]);
+                let after = &rest[pos + 4..];
+                let end = after.find(|c: char| !(c.is_alphanumeric() || c == '_')).unwrap_or(after.len());
+                rest = &after[end..];
+            }
+            fixed.push_str(rest);
+            b = base.clone();
+            rb = run_input(&mut b, &fixed);
+            out["b_retry_outcome"] = json!(rb.outcome);
+            out["b_retry_text"] = json!(fixed);
+        }
+        let n = argtexts.len().min(maxargs);
+        let mut calls = vec![];
+        for i in 0..n {
+            let mut row = vec![];
+            for j in 0..(if two { n } else { 1 }) {
+                let call = if two { format!("let v_r = f_u({}, {})", argtexts[i], argtexts[j]) } else { format!("let v_r = f_u({})", argtexts[i]) };
+                let ca = run_stmt(&mut a, &call, "v_r", &dims);
+                let cb = if rb.outcome == "ok" { run_stmt(&mut b, &call, "v_r", &dims) } else { J::Null };
+                row.push(json!({"a": {"outcome": ca["outcome"], "static": ca["static"], "kind": ca["kind"]},
+                                "b": if cb.is_null() { J::Null } else { json!({"outcome": cb["outcome"], "static": cb["static"], "kind": cb["kind"]}) }}));
+            }
+            calls.push(J::Array(row));
+        }
+        out["calls"] = J::Array(calls);
+        out
+    });
+    let mut out = Out::new(arg(args, "--out"));
+    for r in &results { out.line(r); }
+    out.flush();
+    0
+}
+
 fn main() {
-    nvh::main_dispatch(&[("typing-run", run)]);
+    nvh::main_dispatch(&[("typing-run", run), ("infer-run", run_infer)]);
 }
